@@ -36,6 +36,7 @@ type Step struct {
 	N    int    `json:"n"`
 	E    string `json:"e,omitempty"`
 	Once bool   `json:"once,omitempty"` // the error is reported by this read only: the source recovers
+	GC   bool   `json:"gc,omitempty"`   // the read is slow: a garbage collection (with finalizers) completes before it delivers
 }
 
 // Src describes a scripted randomness source. After the steps are used up
